@@ -26,7 +26,32 @@ def carries_line(e, fi):
         if e.id not in (params | outer):
             # a local that holds a line: every definition of it is itself a line-carrying expression (`arg_lineno = value.lineno`)
             defs = [n.value for n in own_nodes(fi.node) if isinstance(n, ast.Assign) and any(isinstance(t_, ast.Name) and t_.id == e.id for t_ in n.targets)]
-            return bool(defs) and all(not isinstance(d_, ast.Name) and carries_line(d_, fi) for d_ in defs)
+            stmts = [n for n in own_nodes(fi.node) if isinstance(n, ast.Assign) and any(isinstance(t_, ast.Name) and t_.id == e.id for t_ in n.targets)]
+            for n in own_nodes(fi.node):
+                # a, line = x.value, x.lineno or lineno
+                if isinstance(n, ast.Assign) and len(n.targets) == 1 and isinstance(n.targets[0], ast.Tuple) and isinstance(n.value, ast.Tuple) and len(n.value.elts) == len(n.targets[0].elts):
+                    for t_, v_ in zip(n.targets[0].elts, n.value.elts):
+                        if isinstance(t_, ast.Name) and t_.id == e.id:
+                            defs.append(v_)
+                            stmts.append(n)
+            other = [n for n in own_nodes(fi.node) if isinstance(n, ast.Name) and n.id == e.id and isinstance(n.ctx, ast.Store)]
+            if len(other) != len(defs):
+                return False  # bound in a way not followed (loop target, with, augmented)
+            # used in a loop and set under a condition inside it: the value must be set afresh in every round (an unconditional
+            # statement of the loop body) - otherwise a later element inherits the line found for an earlier one
+            par = {}
+            for n in ast.walk(fi.node):
+                for c in ast.iter_child_nodes(n):
+                    par[id(c)] = n
+            loop = par.get(id(e))
+            while loop is not None and not isinstance(loop, (ast.For, ast.While)):
+                loop = par.get(id(loop))
+            if loop is not None:
+                inside = [st for st in stmts if any(st is x for x in ast.walk(loop))]
+                if inside and not any(st in loop.body for st in inside):
+                    return False
+            ok_name = lambda d_: isinstance(d_, ast.Name) and d_.id == "lineno" and d_.id in params  # noqa: E731
+            return bool(defs) and all((ok_name(d_) or not isinstance(d_, ast.Name)) and carries_line(d_, fi) for d_ in defs)
         if e.id != "lineno":
             return False
         if e.id in params:
